@@ -1,6 +1,8 @@
 #!/bin/bash
 # Regenerate the Gallina translation of the Rust source with the rs2coq translator:
-#   gen/Src.v  gen/SrcBigint.v  gen/SrcSlow.v  gen/SrcParse.v
+#   gen/Src.v  gen/SrcBigint.v  gen/SrcSlow.v  gen/SrcParse.v        (the library, $RS2COQ_SRC)
+#   gen/SrcFrontSimple.v  SrcFrontFuzz.v  SrcFrontTest.v  SrcFrontEtc.v   (the shipped string
+#       front-ends, read below $RS2COQ_SRC/..; a missing one only yields OMITTED comments)
 #
 #   tools/rs2coq/run.sh [OUT_DIR]       translate $RS2COQ_SRC (default /repo/src) into OUT_DIR
 #                                       (default: $RS2COQ_OUT_DIR, else /verif/coq/gen)
@@ -61,6 +63,7 @@ if [ -n "${RS2COQ_OUT:-}" ] && [ $# -eq 0 ]; then
   exit 0
 fi
 
+FILES="Src.v SrcBigint.v SrcSlow.v SrcParse.v SrcFrontSimple.v SrcFrontFuzz.v SrcFrontTest.v SrcFrontEtc.v"
 mkdir -p "$TMP/out"
 timeout 120 "$BIN" "$SRC" "$TMP/out" 2> "$TMP/err"
 rc=$?
@@ -69,12 +72,12 @@ if [ $rc -ne 0 ]; then
   echo "rs2coq/run.sh: translation of $SRC FAILED (exit $rc); $OUT_DIR left untouched" >&2
   exit $rc
 fi
-for f in Src.v SrcBigint.v SrcSlow.v SrcParse.v; do
+for f in $FILES; do
   if [ ! -s "$TMP/out/$f" ]; then
     echo "rs2coq/run.sh: the translator did not produce $f; $OUT_DIR left untouched" >&2
     exit 2
   fi
 done
-for f in Src.v SrcBigint.v SrcSlow.v SrcParse.v; do
+for f in $FILES; do
   install_if_changed "$TMP/out/$f" "$OUT_DIR/$f"
 done
